@@ -21,6 +21,9 @@ type WatchdogConfig struct {
 	WarnRatio    float64
 	WarnSegments int64
 	RaftPointers func() map[uint64]manifest.RaftLogPointer
+	// FlushedSegment reports the newest WAL segment whose memtable is installed as a table
+	// (segments above it still back unflushed memtables and must stay).
+	FlushedSegment func() uint32
 }
 
 // WatchdogSnapshot captures WAL watchdog state for reporting.
@@ -45,6 +48,7 @@ type Watchdog struct {
 	warnSegments int64
 	autoEnabled  bool
 	raftPointers func() map[uint64]manifest.RaftLogPointer
+	flushedSeg   func() uint32
 	closer       *utils.Closer
 
 	autoRuns        atomic.Uint64
@@ -83,6 +87,7 @@ func NewWatchdog(cfg WatchdogConfig) *Watchdog {
 		warnSegments: cfg.WarnSegments,
 		autoEnabled:  cfg.MinRemovable > 0 && cfg.MaxBatch > 0,
 		raftPointers: cfg.RaftPointers,
+		flushedSeg:   cfg.FlushedSegment,
 		closer:       utils.NewCloser(),
 	}
 	w.warnReason.Store("")
@@ -192,6 +197,9 @@ func (w *Watchdog) observe() {
 
 	removed := 0
 	for _, id := range batch {
+		if w.flushedSeg != nil && id > w.flushedSeg() {
+			continue // its memtable is not flushed yet
+		}
 		if err := w.manager.RemoveSegment(id); err != nil {
 			if os.IsNotExist(err) {
 				continue
